@@ -84,7 +84,7 @@ class HashSeedEngine(Engine):
 
     # ------------------------------------------------------------ generation
     def generate(self, rng, cfg: Dict[str, Any], prop: str) -> Dict[str, Any]:
-        kind = weighted(rng, [("refine", 3), ("hmmer_overlap", 1), ("filter", 2), ("candidates", 3),
+        kind = weighted(rng, [("refine", 3), ("hmmer_overlap", 1), ("filter", 2), ("candidates", 3), ("detect", 3),
                               ("pipeline", float(cfg.get("pipeline_weight", 1.0)))])
         scenario = getattr(self, f"_gen_{kind}")(rng)
         scenario["kind"] = kind
@@ -215,6 +215,43 @@ class HashSeedEngine(Engine):
                              "product": rng.choice(products), "cutoff": 5}
                 protos.append(candidate)
             rng.shuffle(protos)
+        if rng.random() < 0.3:
+            # no defining genes at all (so no chemical hybrids): chains of overlapping cores that share starts
+            for gene in genes:
+                gene["cores"] = []
+            protos = []
+            base = rng.choice([30, 40, 60])
+            if rng.random() < 0.6:
+                # the tie-rich family: one long core, two or three short cores sharing its start (told apart
+                # only by neighbourhood or product), and a core starting exactly where the short ones end
+                short = rng.choice([5, 10])
+                family = [[[base, base + rng.choice([40, 50])]]] + [[[base, base + short]]] * rng.randint(2, 3) \
+                    + [[[base + short, base + rng.choice([60, 80])]]]
+                rng.shuffle(family)
+                # groups of overlapping cores are merged in the order of their leftmost neighbourhood start, so the
+                # neighbourhoods matter: the short cores share one (a tie), the others reach less or much further left
+                short_left = rng.choice([0, 10])
+                for core in family:
+                    if core[0][1] - core[0][0] == short:
+                        left = short_left
+                    else:
+                        left = rng.choice([0, 0, 10, base])
+                    right = rng.choice([0, 10, 50])
+                    candidate = {"core": core, "loc": [[max(0, core[0][0] - left), min(length, core[0][1] + right)]],
+                                 "product": rng.choice(products), "cutoff": 5}
+                    if not any(p["loc"] == candidate["loc"] and p["core"] == core and p["product"] == candidate["product"]
+                               for p in protos):
+                        protos.append(candidate)
+            for _ in range(rng.randint(0 if protos else 3, 3)):
+                # short cores sharing a start, longer ones bridging them, cores that only touch end to start
+                start = rng.choice([base, base, base, base + 10, base + 10, base + 30])
+                core = [[start, min(length, start + rng.choice([10, 10, 50, 70]))]]
+                dist = rng.choice([0, 10, 20])
+                candidate = {"core": core, "loc": [[max(0, core[0][0] - dist), min(length, core[0][1] + dist)]],
+                             "product": rng.choice(products), "cutoff": 5}
+                if not any(p["loc"] == candidate["loc"] and p["core"] == core and p["product"] == candidate["product"]
+                           for p in protos):
+                    protos.append(candidate)
         subs = []
         if circular and rng.random() < 0.6:
             # an unrelated area in the middle of the record and several small areas at its very end, so that
@@ -231,6 +268,64 @@ class HashSeedEngine(Engine):
             subs.append({"loc": [[start, start + 20]], "label": "s"})
         return {"record": {"id": "rec", "seq": "A" * length, "circular": circular, "genes": genes, "protos": protos,
                            "subs": subs}}
+
+    def _gen_detect(self, rng) -> Dict[str, Any]:
+        """ a generated rule set (cutoffs of 1-5 kb, SUPERIORS / RELATED relations, cds() / minimum() conditions)
+            over four profiles, on a 20-60 kb record with overlapping genes, some of them spanning the origin """
+        length = rng.choice([20000, 40000, 60000])
+        circular = rng.random() < 0.7
+        profiles = ["pA", "pB", "pC", "pD"]
+        genes = []
+        pos = rng.choice([0, 500])
+        g = 0
+        while g < 14:
+            size = rng.choice([600, 900, 1500])
+            if pos + size > length - (1500 if circular else 0):
+                break
+            genes.append({"name": f"g{g}", "parts": [[pos, pos + size]], "strand": rng.choice([1, -1]), "cores": []})
+            pos += size + rng.choice([-300, 0, 300, 2500, 6000])
+            pos = max(pos, 0)
+            g += 1
+        if circular:
+            for i in range(rng.choice([0, 1, 2, 2])):       # genes spanning the origin, possibly overlapping each other
+                upper = rng.choice([300, 600, 1200])
+                lower = rng.choice([300, 600, 3000])
+                strand = rng.choice([1, -1])
+                parts = [[length - upper, length], [0, lower]]
+                if strand == -1:
+                    parts.reverse()
+                if not any(sorted(map(tuple, gene["parts"])) == sorted(map(tuple, parts)) for gene in genes):
+                    genes.append({"name": f"x{i}", "parts": parts, "strand": strand, "cores": []})
+        seen = set()
+        unique = []
+        for gene in genes:                      # no two genes may have the same location
+            key = str(sorted(map(tuple, gene["parts"])))
+            if key not in seen:
+                seen.add(key)
+                unique.append(gene)
+        genes = unique
+        hits = []
+        for gene in genes:
+            for profile in profiles:
+                if rng.random() < (0.45 if gene["name"].startswith("x") else 0.22):
+                    hits.append({"cds": gene["name"], "profile": profile, "bitscore": rng.choice([50, 50, 80])})
+        conditions = ["pA", "pB", "pC", "pD", "pA or pB", "pA and pB", "cds(pA and pB)", "pC and not pD",
+                      "minimum(2, [pA, pB, pC])", "cds(pC or pD)", "pB and cds(pC and not pA)"]
+        names = ["alpha", "beta", "gamma", "delta", "epsilon"][:rng.randint(2, 5)]
+        text = []
+        for index, name in enumerate(names):
+            text.append(f"RULE {name}")
+            text.append(f"    CATEGORY {rng.choice(['CatA', 'CatB'])}")
+            if rng.random() < 0.2:
+                text.append(f"    RELATED {rng.choice(profiles)}")
+            if index and rng.random() < 0.5:
+                text.append(f"    SUPERIORS {', '.join(rng.sample(names[:index], rng.randint(1, min(2, index))))}")
+            text.append(f"    CUTOFF {rng.choice([1, 2, 5])}")
+            text.append(f"    NEIGHBOURHOOD {rng.choice([1, 2, 5])}")
+            text.append(f"    CONDITIONS {rng.choice(conditions)}")
+            text.append("")
+        return {"record": {"id": "rec", "seq": "A" * length, "circular": circular, "genes": genes},
+                "hits": hits, "profiles": profiles, "categories": ["CatA", "CatB"], "rules": "\n".join(text)}
 
     def _gen_pipeline(self, rng) -> Dict[str, Any]:
         from sim.world.pipeline import DETECTION_PROFILES, DOMAIN_PROFILES, MAIN_DOMAINS, PFAM_PROFILES, module_layout
@@ -323,8 +418,12 @@ class HashSeedEngine(Engine):
                         end = start + rng.choice([30, 30, 45])
                         if end >= aa:
                             continue
-                        pfam_hits.append({"cds": gene["name"], "profile": rng.choice(names), "start": start, "end": end,
-                                          "bitscore": rng.choice([30.0, 30.0, 55.0]), "evalue": rng.choice([1e-8, 1e-8, 1e-3])})
+                        hit = {"cds": gene["name"], "profile": rng.choice(names), "start": start, "end": end,
+                               "bitscore": rng.choice([30.0, 30.0, 55.0]), "evalue": rng.choice([1e-8, 1e-8, 1e-3])}
+                        # hmmscan never reports the same domain of one profile twice
+                        if not any(all(other[key] == hit[key] for key in ("cds", "profile", "start", "end"))
+                                   for other in pfam_hits):
+                            pfam_hits.append(hit)
         return {"records": records, "hits": hits, "domain_hits": {"nrpspksdomains.hmm": domain_hits, "ksdomains.hmm": subtype_hits,
                                                                  "Pfam-A.hmm": pfam_hits},
                 "domain_lengths": lengths, "extra_args": extra}
@@ -399,6 +498,12 @@ class HashSeedEngine(Engine):
     def shrink_candidates(self, scenario: Dict[str, Any]) -> Iterator[Dict[str, Any]]:
         kind = scenario["kind"]
         if kind in ("refine", "hmmer_overlap", "filter"):
+            return
+        if kind == "detect":
+            for i in range(len(scenario["record"]["genes"])):
+                cand = copy.deepcopy(scenario)
+                del cand["record"]["genes"][i]
+                yield cand
             return
         if kind == "candidates":
             for key in ("genes", "protos", "subs"):
@@ -555,7 +660,7 @@ class HashSeedEngine(Engine):
         return dict(getattr(self, "_batch_info", {}))
 
 
-EXPECTED_PROBES = ["kind_refine", "kind_hmmer_overlap", "kind_filter", "kind_candidates", "kind_pipeline",
+EXPECTED_PROBES = ["kind_refine", "kind_hmmer_overlap", "kind_filter", "kind_candidates", "kind_detect", "kind_pipeline",
                    "pipeline_completed"]
 
 ENGINE = HashSeedEngine()
